@@ -45,8 +45,6 @@ var c30R1Exceptions = map[string]string{
 	"compiler.(*deps).nodeDeps#range:k,v:d.itea":                           "unique-match search: analyzingVarExprWithItea is the Lhs identifier of exactly one 'using' declaration, so one entry of d.itea contains it",
 	"compiler.(*scopes).UnusedImport#range:_,n:scopes.s[3].names":          "monotone: for an imported package there is one name; otherwise unused[impor] ends as 'no name of impor is used' whatever the order (a used name stores false and nothing stores true over it)",
 	"compiler.(*scopes).Exit#range:name,lbl:scopes.s[c].fn.labels":         "which of several undefined labels is reported depends on map order; the build fails with a 'label not defined' error in every order and produces no artefact — outside C30's observables (reported in REPORT.md with an optional repair)",
-	"compiler.BuildProgram#range:_,pkgInfos:tci":                           "maps.Copy into typeInfos: the keys are AST node pointers and every node belongs to exactly one package, so no two iterations write the same key",
-	"compiler.BuildTemplate#range:_,pkgInfos:tci":                          "maps.Copy into typeInfos: the keys are AST node pointers and every node belongs to exactly one package, so no two iterations write the same key",
 	"compiler.Disassemble#range:path,funcs:functionsByPkg":                 "the shared bytes.Buffer is empty at the start of every iteration (Reset at its end) and the text is stored under assemblies[path]: per-key result",
 	"compiler.(*emitter).canOptimizeShowMacro#range:f,t:em.formatTypes":    "unique-match search by value: the format types are distinct Go types (one per format; templates.go formatTypes)",
 	"compiler/types.structType.FieldByName#range:_,field:*x.scriggoFields": "unique-match search: field names are unique within a struct type",
@@ -1490,6 +1488,13 @@ func (l *c30Loop) call(e c30Eff) {
 		case "accum":
 			l.facts["commutative accumulation in a callee"]++
 		case "mapset-by-value":
+			// reviewed exception by role (was listed per function): a destination keyed by the identity of
+			// syntax nodes — every node belongs to the tree of exactly one package, so no two iterations
+			// write the same key
+			if mt, ok := info.TypeOf(arg).Underlying().(*types.Map); ok && strings.HasSuffix(typeStr(mt.Key()), "ast.Node") {
+				l.facts["maps.Copy into a map keyed by syntax-node identity (one tree per package)"]++
+				continue
+			}
 			l.sens("%s: %s", name, se.desc)
 		default:
 			l.sens("%s %s (state outside the loop: %s) once per entry, in map order", name, se.desc, p.text)
